@@ -601,11 +601,21 @@ def confinement(ctx):
         f = fp[0]
         ex = [x for x in f.exits()]
         if len(ex) == 1:
-            e = expand(f, ex[0]['expr'])
+            e0 = ex[0]['expr']
+            # a vector filled by a push loop is the same sequence as iter().map().collect()
+            e0 = map_tree(e0, lambda y: seq_chain(f, y) if (y and y[0] == 'var' and loop_built(f, y[1]) and not loop_built(f, y[1])['filtered']) else y)
+            e = expand(f, e0, keep=lambda ty: ty.startswith('std::vec::Vec<'))
             det = show(e)[:200]
             chain = [c_[3] for c_ in calls_in(e)]
             cl = [x for x in walk(e) if isinstance(x, tuple) and x[0] == 'closure' and x[1] in P.fns]
+            lbod = [x for x in walk(e) if isinstance(x, tuple) and x[0] == 'loopbody']
             okc = False
+            ELEM_OK = r'(to_string_lossy|AsRef::as_ref|Into::into|From::from|Deref::deref|to_str|to_string|to_owned|into_owned|Option::<T>::unwrap\w*|Borrow::borrow|Iterator::next|IntoIterator::into_iter|Path::iter|Path::components|Path::with_extension)$'
+            if len(lbod) == 1 and not cl:
+                inner = [c_[3] for c_ in calls_in(expand(f, lbod[0][1]))]
+                det += ' ;; ' + show(lbod[0][1])[:120]
+                okc = all(re.search(ELEM_OK, c_) for c_ in inner) and any(c_.endswith('to_string_lossy') or c_.endswith('to_str') for c_ in inner) and \
+                    any(c_.endswith('Iterator::next') for c_ in inner)
             if len(cl) == 1:
                 cx = P.fns[cl[0][1]].exits()
                 if len(cx) == 1:
